@@ -267,6 +267,36 @@ def _clump(rng, m, d):
             q[a + 3:a + 7] = x / np.linalg.norm(x)
 
 
+def _static_static_dense_abort(L, m, d, msg):
+    """(True, evidence) only if the trapped error is the known mechanism of findings/C17-static-static-contact-dense-abort.md:
+    the exact message 'treeIterInit: contact N is between two static bodies' (not the equality / generic-constraint messages of
+    engine_island.c, which share the words), contact N is a geom-geom contact whose two bodies are both dof-less (no tree, weld
+    root without dofs) - i.e. the message is TRUE, only the row should not exist - and the dense Jacobian path is active (the
+    sparse path excludes such pairs because mj_jacDifPair returns an empty chain). Anything else keeps the generic signature."""
+    mm = re.match(r"\s*treeIterInit: contact (\d+) is between two static bodies\s*$", msg)
+    if not mm:
+        return False, "message is not the exact contact form"
+    try:
+        if int(L.call("mj_isSparse", m)) != 0:
+            return False, "sparse Jacobian active"
+        cid = int(mm.group(1))
+        ncon = int(d.s("ncon"))
+        if not 0 <= cid < ncon:
+            return False, "contact id %d outside 0..%d" % (cid, ncon)
+        con = d.contacts()[cid]
+        g1, g2 = int(con["geom"][0]), int(con["geom"][1])
+        if g1 < 0 or g2 < 0:
+            return False, "not a geom-geom contact"
+        gb, tid, wid, dn = m["geom_bodyid"], m["body_treeid"], m["body_weldid"], m["body_dofnum"]
+        b1, b2 = int(gb[g1]), int(gb[g2])
+        for b in (b1, b2):
+            if int(tid[b]) >= 0 or int(dn[int(wid[b])]) != 0:
+                return False, "body %d is not dof-less (treeid %d): the engine's tree lookup is wrong" % (b, int(tid[b]))
+        return True, "contact %d geoms (%d,%d) bodies (%d,%d) both dof-less, dense Jacobian" % (cid, g1, g2, b1, b2)
+    except Exception as ex:                                   # evidence not obtainable => not confirmed
+        return False, "confirmation failed: %r" % (ex,)
+
+
 def worker(c):
     P = core.Part()
     L = drv.Lib(c.get("flavour", "rel"))
@@ -318,8 +348,11 @@ def worker(c):
                 # the engine's own SHOULD-NOT-OCCUR consistency checks inside island discovery fired
                 w = dict(witness)
                 w.update({"observation": k, "events": events[-6:], "error": str(e)[:300]})
-                if "between two static bodies" in str(e):
-                    # known finding C17-static-static-contact-dense-abort (out/findings)
+                confirmed, why = _static_static_dense_abort(L, m, d, str(e))
+                w["known_mechanism_check"] = why
+                if confirmed:
+                    # known finding findings/C17-static-static-contact-dense-abort.md, mechanism confirmed on this very state
+                    P.count("static_static_dense_abort_confirmed")
                     P.violation("island-discovery-aborts:constraint-between-two-static-bodies", w)
                 else:
                     P.violation("engine-reported-island-inconsistency", w)
